@@ -167,6 +167,10 @@ type intermediateOutput struct {
 	// nil and "joiner" contains the contents of the chunk. This is more efficient
 	// because it avoids doing a join operation twice.
 	joiner helpers.Joiner
+
+	// If true, the final paths are substituted into strings in CSS code.
+	// Otherwise they are substituted into strings in JavaScript or JSON code.
+	isCSS bool
 }
 
 type chunkRepr interface{ isChunk() }
@@ -834,7 +838,7 @@ func (c *linkerContext) substituteFinalPaths(
 			// Make sure to always use forward slashes, even on Windows
 			relPath = strings.ReplaceAll(relPath, "\\", "/")
 
-			importPath := modifyPath(relPath)
+			importPath := escapeFinalPath(modifyPath(relPath), intermediateOutput.isCSS)
 			j.AddString(importPath)
 			shift.Before.AdvanceString(file.InputFile.UniqueKeyForAdditionalFile)
 			shift.After.AdvanceString(importPath)
@@ -842,7 +846,7 @@ func (c *linkerContext) substituteFinalPaths(
 
 		case outputPieceChunkIndex:
 			chunk := c.chunks[piece.index]
-			importPath := modifyPath(chunk.finalRelPath)
+			importPath := escapeFinalPath(modifyPath(chunk.finalRelPath), intermediateOutput.isCSS)
 			j.AddString(importPath)
 			shift.Before.AdvanceString(chunk.uniqueKey)
 			shift.After.AdvanceString(importPath)
@@ -851,6 +855,32 @@ func (c *linkerContext) substituteFinalPaths(
 	}
 
 	return
+}
+
+// A unique key always stands inside a string that is delimited by double
+// quotes (a JavaScript string literal, a CSS string or a string in the JSON
+// metadata). The final path that is substituted for it has not been through a
+// printer, so the characters that cannot stand in such a string as they are
+// must be escaped here.
+func escapeFinalPath(path string, isCSS bool) string {
+	if strings.IndexFunc(path, func(c rune) bool { return c < 0x20 || c == '"' || c == '\\' }) < 0 {
+		return path
+	}
+	sb := strings.Builder{}
+	for i := 0; i < len(path); i++ {
+		switch c := path[i]; {
+		case c == '"' || c == '\\':
+			sb.WriteByte('\\')
+			sb.WriteByte(c)
+		case c >= 0x20:
+			sb.WriteByte(c)
+		case isCSS:
+			fmt.Fprintf(&sb, "\\%x ", c)
+		default:
+			fmt.Fprintf(&sb, "\\u%04x", c)
+		}
+	}
+	return sb.String()
 }
 
 func (c *linkerContext) accurateFinalByteCount(output intermediateOutput, chunkFinalRelDir string) int {
@@ -871,12 +901,12 @@ func (c *linkerContext) accurateFinalByteCount(output intermediateOutput, chunkF
 			// Make sure to always use forward slashes, even on Windows
 			relPath = strings.ReplaceAll(relPath, "\\", "/")
 
-			importPath := c.pathBetweenChunks(chunkFinalRelDir, relPath)
+			importPath := escapeFinalPath(c.pathBetweenChunks(chunkFinalRelDir, relPath), output.isCSS)
 			count += len(importPath)
 
 		case outputPieceChunkIndex:
 			chunk := c.chunks[piece.index]
-			importPath := c.pathBetweenChunks(chunkFinalRelDir, chunk.finalRelPath)
+			importPath := escapeFinalPath(c.pathBetweenChunks(chunkFinalRelDir, chunk.finalRelPath), output.isCSS)
 			count += len(importPath)
 		}
 	}
@@ -6430,6 +6460,7 @@ func (c *linkerContext) generateChunkCSS(chunkIndex int, chunkWaitGroup *sync.Wa
 
 	// The CSS contents are done now that the source map comment is in
 	chunk.intermediateOutput = c.breakJoinerIntoPieces(j)
+	chunk.intermediateOutput.isCSS = true
 	timer.End("Join CSS files")
 
 	if c.options.SourceMap != config.SourceMapNone {
@@ -6445,6 +6476,7 @@ func (c *linkerContext) generateChunkCSS(chunkIndex int, chunkWaitGroup *sync.Wa
 		pieces := make([]intermediateOutput, len(compileResults))
 		for i, compileResult := range compileResults {
 			pieces[i] = c.breakOutputIntoPieces(compileResult.CSS)
+			pieces[i].isCSS = true
 		}
 		chunk.jsonMetadataChunkCallback = func(finalOutputSize int) helpers.Joiner {
 			finalRelDir := c.fs.Dir(chunk.finalRelPath)
